@@ -103,6 +103,11 @@ func (p *vfC13Peer) handle(pc *vfPeerConn) {
 	case "refuse":
 		pc.Close()
 		return
+	case "abort-header":
+		// the server dies while writing its stream header: the client reads a strict prefix of it, then the end
+		pc.Send("<?xml version='1.0'?><stream:stream id='h1' from='localhost' xmlns='jabber:cli")
+		pc.Close()
+		return
 	case "garbage":
 		pc.Send(vfStreamHeader("jabber:client", "g", "localhost") + "<stream:features><<<garbage")
 		pc.idle = 300 * time.Millisecond
@@ -154,6 +159,11 @@ func (p *vfC13Peer) handle(pc *vfPeerConn) {
 				p.mu.Unlock()
 			}
 		}
+		return
+	}
+	if b == "abort-restart-header" { // ... or while writing the header of the restarted stream
+		pc.Send("<?xml version='1.0'?><stream:stream id='h2' from='localhost' xmlns='jabber:cli")
+		pc.Close()
 		return
 	}
 	pc.Send(vfStreamHeader("jabber:client", fmt.Sprintf("s%da", pc.N), "localhost") + neg.features("post-auth"))
@@ -650,7 +660,7 @@ func TestVf_C13(t *testing.T) {
 		}
 		return
 	}
-	alphabet := []string{"rst", "fin", "graceful", "refuse-1", "refuse-2", "refuse-4", "down-1", "down-2", "garbage", "abort-auth", "abort-success", "abort-bind", "loss-in-postconnect", "stop-during-outage", "permanent-sasl"}
+	alphabet := []string{"rst", "fin", "graceful", "refuse-1", "refuse-2", "refuse-4", "down-1", "down-2", "garbage", "abort-header", "abort-restart-header", "abort-auth", "abort-success", "abort-bind", "loss-in-postconnect", "stop-during-outage", "permanent-sasl"}
 	var cases []*vfC13Case
 	// every single fault, with and without SM
 	for _, smOn := range []bool{false, true} {
